@@ -644,6 +644,22 @@ func ruleDoErrorContract(c *Ctx, r *R) {
 				if v.Referrers() == nil {
 					return false
 				}
+				// through a result variable: the frame returns a merge that this error flows into; whether anything else can
+				// happen first on the failing path is decided by f-error-not-swallowed below
+				carried := false
+				instrs(v.Parent(), func(_ *ssa.BasicBlock, _ int, in ssa.Instruction) {
+					if ret, ok := in.(*ssa.Return); ok && len(ret.Results) > 0 {
+						if rv := returnedValue(ret, 0); rv != ssa.Value(v) && phiCarries(rv, v) {
+							carried = true
+						}
+					}
+				})
+				if carried {
+					if len(chain) == 0 || v.Parent() == g {
+						return true
+					}
+					return flows(chain[len(chain)-1], chain[:len(chain)-1])
+				}
 				for _, ref := range *v.Referrers() {
 					ret, ok := ref.(*ssa.Return)
 					if !ok || returnedValue(ret, 0) != ssa.Value(v) {
@@ -683,10 +699,11 @@ func ruleDoErrorContract(c *Ctx, r *R) {
 						return 0, false
 					}
 					x, y := cf.x, cf.y
-					if y == ssa.Value(call) {
+					if y == ssa.Value(call) || (y != x && phiCarries(y, call) && isNilConst(x)) {
 						x, y = y, x
 					}
-					if x != ssa.Value(call) || !isNilConst(y) {
+					// (a result variable that the error was just assigned to stands for the error on this path)
+					if (x != ssa.Value(call) && !phiCarries(x, call)) || !isNilConst(y) {
 						return 0, false
 					}
 					if cf.op == token.EQL {
@@ -707,7 +724,7 @@ func ruleDoErrorContract(c *Ctx, r *R) {
 							swallowed, swPos = true, x.Pos()
 						}
 					case *ssa.Return:
-						if len(x.Results) > 0 && returnedValue(x, 0) != ssa.Value(call) {
+						if len(x.Results) > 0 && !phiCarries(returnedValue(x, 0), call) {
 							swallowed, swPos = true, retPos(x)
 						}
 					}
@@ -719,23 +736,25 @@ func ruleDoErrorContract(c *Ctx, r *R) {
 		// the branch taken when ctx.Err() != nil returns ctx.Err(), not nil
 		nb := 0
 		for _, di := range deepInstrs(g, 2) {
-			b := di.in.Block()
 			ret, ok := di.in.(*ssa.Return)
 			if !ok || len(ret.Results) == 0 {
 				continue
 			}
-			for _, gd := range guardsOf(b) {
-				if gd.blk.Succs[0] != b && gd.blk.Succs[1] != b {
-					continue
-				}
-				if cf, ok := gd.asCmp(); ok && cf.op == token.NEQ && isNilConst(cf.y) {
-					if ec, ok := cf.x.(*ssa.Call); ok && ec.Call.IsInvoke() && ec.Call.Method.Name() == "Err" {
-						nb++
-						good := false
-						if rc, ok := returnedValue(ret, 0).(*ssa.Call); ok && rc.Call.IsInvoke() && rc.Call.Method.Name() == "Err" {
-							good = true
+			for _, vr := range virtualReturnsOf(ret, 0) {
+				b := vr.blk
+				for _, gd := range guardsOf(b) {
+					if gd.blk.Succs[0] != b && gd.blk.Succs[1] != b {
+						continue
+					}
+					if cf, ok := gd.asCmp(); ok && cf.op == token.NEQ && isNilConst(cf.y) {
+						if ec, ok := cf.x.(*ssa.Call); ok && ec.Call.IsInvoke() && ec.Call.Method.Name() == "Err" {
+							nb++
+							good := false
+							if rc, ok := vr.val.(*ssa.Call); ok && rc.Call.IsInvoke() && rc.Call.Method.Name() == "Err" {
+								good = true
+							}
+							r.ok(good, "parallel.DoContext|cancelled-worker-reports", retPos(ret), "a worker that stops because the context is done must return ctx.Err(): returning nil turns a caller-side cancellation into a successful result with indices never processed")
 						}
-						r.ok(good, "parallel.DoContext|cancelled-worker-reports", retPos(ret), "a worker that stops because the context is done must return ctx.Err(): returning nil turns a caller-side cancellation into a successful result with indices never processed")
 					}
 				}
 			}
@@ -751,8 +770,18 @@ func ruleDoErrorContract(c *Ctx, r *R) {
 		if !ok || len(ret.Results) == 0 {
 			continue
 		}
-		if call, ok := returnedValue(ret, 0).(*ssa.Call); ok && len(call.Call.Args) == 2 && isUserFn(call) {
-			seq = true
+		for _, vr := range virtualReturnsOf(ret, 0) {
+			if call, ok := vr.val.(*ssa.Call); ok && len(call.Call.Args) == 2 && isUserFn(call) {
+				seq = true
+			}
+		}
+		// a result variable carried by the loop (`for i := 0; i < n && err == nil; i++ { err = f(ctx, i) }; return err`)
+		if rv := returnedValue(ret, 0); !seq {
+			instrs(ret.Parent(), func(_ *ssa.BasicBlock, _ int, in ssa.Instruction) {
+				if call, ok := in.(*ssa.Call); ok && len(call.Call.Args) == 2 && isUserFn(call) && phiCarries(rv, call) {
+					seq = true
+				}
+			})
 		}
 	}
 	r.ok(seq, "parallel.DoContext|sequential-returns-f-error", dc.Pos(), "the sequential path must return f's error as soon as it occurs")
@@ -974,4 +1003,69 @@ func isXmathMin(call *ssa.Call) bool {
 	}
 	o := origin(cal)
 	return o.Name() == "Min" && o.Pkg != nil && strings.HasSuffix(o.Pkg.Pkg.Path(), "/xmath")
+}
+
+// phiCarries: v is x, or a merge (possibly through a loop header's own merge) that x flows into - the SSA form of a result
+// variable: `var err error; for err == nil { ...; err = f(ctx, i) }; return err`.
+func phiCarries(v ssa.Value, x ssa.Value) bool {
+	seen := map[ssa.Value]bool{}
+	var walk func(v ssa.Value, d int) bool
+	walk = func(v ssa.Value, d int) bool {
+		if v == x {
+			return true
+		}
+		phi, ok := v.(*ssa.Phi)
+		if !ok || seen[v] || d > 4 {
+			return false
+		}
+		seen[v] = true
+		for _, e := range phi.Edges {
+			if walk(e, d+1) {
+				return true
+			}
+		}
+		return false
+	}
+	return walk(v, 0)
+}
+
+// virtualReturn: one way into a return whose operand is a merge: the value on that way and the block it comes from.
+type virtualReturn struct {
+	val ssa.Value
+	blk *ssa.BasicBlock
+}
+
+// virtualReturnsOf expands `return r` with r a merge in the returning block (a result variable set on several paths) into one
+// virtual return per incoming edge; merges that feed it from their own blocks are expanded in turn.
+func virtualReturnsOf(ret *ssa.Return, idx int) []virtualReturn {
+	var out []virtualReturn
+	seen := map[*ssa.Phi]bool{}
+	var expand func(v ssa.Value, blk *ssa.BasicBlock, d int)
+	expand = func(v ssa.Value, blk *ssa.BasicBlock, d int) {
+		phi, ok := v.(*ssa.Phi)
+		if !ok || seen[phi] || d > 4 || (phi.Block() != blk && !onlyJumpsBetween(phi.Block(), blk)) {
+			out = append(out, virtualReturn{v, blk})
+			return
+		}
+		seen[phi] = true
+		for k, e := range phi.Edges {
+			expand(e, phi.Block().Preds[k], d+1)
+		}
+	}
+	expand(returnedValue(ret, idx), ret.Block(), 0)
+	return out
+}
+
+// onlyJumpsBetween: b is reached from a through unconditional jumps only (or is a itself).
+func onlyJumpsBetween(a, b *ssa.BasicBlock) bool {
+	for d := 0; d < 4; d++ {
+		if a == b {
+			return true
+		}
+		if len(a.Succs) != 1 {
+			return false
+		}
+		a = a.Succs[0]
+	}
+	return false
 }
